@@ -33,7 +33,7 @@ def api_builds(ctx, nconf):
     try:
         for c in range(nconf):
             # the last configuration of every run is larger than one 16384-vertex update block (the block loop of the low-memory path)
-            n = rng.choice([30, 60, 120, 200]) if c < nconf - 1 else 16384 + rng.choice([1, 700, 3000])
+            n = rng.choice([30, 60, 120, 200]) if c < nconf - 1 else 16384 + rng.choice([700, 3000])
             dim = rng.choice([2, 5, 10]) if n < 1000 else 4
             kind = rng.choice(["gauss", "ints", "dups"])
             rs = np.random.RandomState(rng.randrange(10 ** 6))
@@ -54,7 +54,7 @@ def api_builds(ctx, nconf):
             if kw["n_neighbors"] >= n:
                 kw["n_neighbors"] = max(1, n // 3)
             if n > 1000:
-                kw.update(n_neighbors=5, max_candidates=None, n_iters=rng.choice([None, 3]), tree_init=rng.choice([True, False]))
+                kw.update(n_neighbors=5, max_candidates=None, n_iters=rng.choice([None, 3]), tree_init=False, n_jobs=rng.choice([None, 2]))
             use_init = (not sparse) and n < 1000 and rng.random() < 0.25
             if use_init:
                 ig = rs.randint(-1, n, size=(n, kw["n_neighbors"])).astype(np.int64)
